@@ -185,9 +185,10 @@ def run(prog: Program, chk: Check) -> None:
         chk.add("K3", u, f"range({norm(loop.iter.args[0])})", f == want,
                 f"bound {f}: final label (STEP+{offset})*dt = N*dt = 1/T" if f == want else
                 f"bound {f}, expected {want}: the last state would not be at 1/T", loop)
-    k4(prog, chk)
-    k5(prog, chk)
-    k6(prog, chk)
+    chk.call(k4, prog, chk)
+    chk.call(k5, prog, chk)
+    chk.call(k6, prog, chk)
+    chk.call(k7, prog, chk)
 
 
 def k4(prog: Program, chk: Check) -> None:
@@ -426,6 +427,51 @@ def k6(prog: Program, chk: Check) -> None:
                     "the same grid GibbsTempo is served real-time kernels", st)
     if n < 3:
         raise AnalysisError(f"K6: only {n} functions with a matsubara argument left (floor 3)")
+
+
+
+# --------------------------------------------------------------------- K7
+def k7(prog: Program, chk: Check) -> None:
+    chk.rule("K7", "levels with equal coupling eigenvalue are summed together, not dropped: the "
+             "matrix TIBaseBackend._unique returns next to the representatives marks every member "
+             "of a class - it is built from an equality test between the class label of each "
+             "element and each representative", floor=1)
+    u = prog.unit("backends.tempo_backend:TIBaseBackend._unique")
+    du = DefUse(u, CFG(u.node, exc_edges=False))
+    chk.saw(u, du.cfg)
+    rets = [r for r in walk_local(u.node) if isinstance(r, ast.Return)
+            and isinstance(r.value, ast.Tuple) and len(r.value.elts) == 2]
+    if len(rets) != 1:
+        raise AnalysisError("K7: _unique no longer returns (representatives, matrix)")
+    reps_e, mat_e = rets[0].value.elts
+    nid = du.node_of(rets[0])
+
+    def closure(e, at, depth=0):
+        out = [e]
+        if depth > 6:
+            return out
+        for y in ast.walk(e):
+            if isinstance(y, ast.Name) and isinstance(y.ctx, ast.Load):
+                for d in du.reaching(at, y.id):
+                    if d.value is not None and d.node != at:
+                        out += closure(d.value, d.node, depth + 1)
+        return out
+    exprs = closure(mat_e, nid)
+    # label list: one class label per element (a comprehension / array over all values)
+    cmp_ok = False
+    for e in exprs:
+        for c in ast.walk(e):
+            if isinstance(c, ast.Compare) and len(c.ops) == 1 and isinstance(c.ops[0], ast.Eq):
+                cmp_ok = True
+    dep_reps = any(isinstance(y, ast.Name) and any(
+        d.value is not None and ("set(" in norm(d.value) or "unique" in norm(d.value))
+        for d in du.defs if d.name == y.id) for e in exprs for y in ast.walk(e))
+    ok = cmp_ok and dep_reps
+    chk.add("K7", u, f"membership matrix: {norm(exprs[1] if len(exprs) > 1 else mat_e)[:70]}", ok,
+            "labels compared with representatives" if ok else
+            "the matrix is not built from an equality test over all elements: only the first "
+            "level of each class is kept, the others get zero rows and columns in the Gibbs "
+            "state (wrong even at zero coupling)", rets[0])
 
 
 
